@@ -93,6 +93,11 @@ SCENARIOS = {
     "meta-with-data-rememoize-same-result": [["memoize", "f#1", 0, 9091, "b", 9091, 40, None], ["wmeta", "f#1", 0, "log", 9092, True], ["rmeta", "f#1", 0, "log"],
                                              ["memoize", "f#1", 0, 9093, "b", 9091, 40, None], ["rmeta", "f#1", 0, "log"], ["wmeta", "f#1", 0, "a.b", 9094, False],
                                              ["memoize", "f#1", 0, 9095, "b", 9091, 40, None], ["rmeta", "f#1", 0, "a.b"], ["rmeta", "f#1", 0, "log"]],
+    "sibling-calls-equal-metadata-forget-one": [["memoize", "f#1", 0, 9101, "b", 9101, 40, None], ["memoize", "f#1", 1, 9102, "b", 9102, 40, None],
+                                                ["wmeta", "f#1", 0, "log", 9103, True], ["wmeta", "f#1", 1, "log", 9104, True],
+                                                ["wmeta", "f#1", 0, "a.b", 9105, False], ["wmeta", "f#1", 1, "a.b", 9105, False],
+                                                ["fcall", "f#1", 0], ["rmeta", "f#1", 1, "log"], ["rmeta", "f#1", 1, "a.b"], ["read", "f#1", 1], ["rmeta", "f#1", 0, "a.b"],
+                                                ["wmeta", "f#1", 1, "a.b", 9106, True], ["rmeta", "f#1", 1, "a.b"], ["lmems", "f#1"]],
     "oversize-rememoize": [["memoize", "f#1", 0, 9021, "b", 9021, 100, None], ["read", "f#1", 0],
                            ["memoize", "f#1", 0, 9022, "b", 9022, 9000, None], ["read", "f#1", 0]],
     "stale-weakref": [["memoize", "f#1", 0, 9031, "n", 9031, 200, None], ["memoize", "f#1", 0, 9032, "b", 9032, 200, None],
